@@ -75,6 +75,21 @@ type Constraints struct {
 	compiled entrySlice
 }
 
+// without gives a copy of the constraints that does not hold the given one
+func (c *Constraints) without(constraint interface{}) *Constraints {
+	if c == nil {
+		return nil
+	}
+	copy := &Constraints{}
+	for _, e := range c.entries {
+		if e.constraint != constraint {
+			copy.entries = append(copy.entries, e)
+		}
+	}
+	copy.compile()
+	return copy
+}
+
 func NewConstraints(parent *Constraints) *Constraints {
 	c := &Constraints{}
 	c.entries = make([]*entry, len(parent.entries))
